@@ -37,8 +37,19 @@ def build():
     W = tv('W')
     ww = tp.TypeConstructor('WW', [W], [box.new([tp.WildCardType(tp.WildCardType(W, tp.Covariant), tp.Covariant)])])
     cases.append(('wildcard-of-wildcard', [box, ww], ww, [W]))
+    # diamond: X<T> : A<T>, B<T>;  A<T> : K<T>, M<T>;  B<T> : K<T>   (K is reached twice, M only through A, after K)
+    Kt, Mt, At, Bt, Xt = tv('Kt'), tv('Mt'), tv('At'), tv('Bt'), tv('Xt')
+    kk = tp.TypeConstructor('K', [Kt])
+    mm = tp.TypeConstructor('M', [Mt])
+    bb = tp.TypeConstructor('B', [Bt], [kk.new([Bt])])
+    aa = tp.TypeConstructor('A', [At], [kk.new([At]), mm.new([At])])
+    xx = tp.TypeConstructor('X', [Xt], [aa.new([Xt]), bb.new([Xt])])
+    cases.append(('diamond', [kk, mm, aa, bb, xx], xx, [Xt]))
     grounds = [S, I, box.new([S]), box.new([tp.WildCardType(I, tp.Covariant)]),
                tp.WildCardType(), box.new([tp.WildCardType()])]          # star projections contain no type variable
+    flagged = box.new([I])
+    flagged.can_infer_type_args = True        # as TypeErasure marks the type of `new Box<>(..)`: not part of type identity
+    grounds.append(flagged)
     return dict(tp=tp, kt=kt, cases=cases, grounds=grounds)
 
 
@@ -145,6 +156,20 @@ def run(tier, seed, stop_first=False):
                 report('supertypes-substituted', case=ci, args=ai, expected=repr(exp_sup)[:500], actual=repr(act_sup)[:500])
             if has_tv(got) or supers_have_tv(act_sup):
                 report('ground-result-has-type-variables', case=ci, args=ai, actual=repr((got, act_sup))[:500])
+            # "transitively up the hierarchy": the closure the IR computes (get_supertypes) contains a type equal to every
+            # member of the closure of the (substituted) supertypes lists
+            evals += 1
+            closure, todo = [], list(inst.supertypes)
+            while todo:
+                sup_t = todo.pop()
+                if not any(sup_t is c for c in closure):
+                    closure.append(sup_t)
+                    todo.extend(getattr(sup_t, 'supertypes', []))
+            have = list(inst.get_supertypes())
+            missing = [str(c) for c in closure if not any(norm(tp, h) == norm(tp, c) for h in have)]
+            if missing:
+                report('supertype-closure-complete', case=ci, args=ai, expected='get_supertypes() contains ' + ', '.join(missing[:3]),
+                       actual=repr([str(h) for h in have])[:400])
             if snapshot((table, args)) != before:
                 report('mutates-nothing', case=ci, args=ai, what='class table or arguments changed by instantiation')
             # substitution with the empty map returns an equal type; substituting on the instance changes nothing
@@ -189,7 +214,7 @@ def run(tier, seed, stop_first=False):
                 report('empty-map-equal', case=ci, args=ai, expected=str(open_inst), actual=str(e3))
     return dict(evaluations=evals, distinct_nontrivial=len(distinct),
                 rule='%d class tables (nested wildcard bounds, a bound that mentions another parameter, a 3-level generic '
-                     'chain, wildcard of wildcard) x every tuple of 6 ground argument types (incl. star projections): TypeConstructor.new and '
+                     'chain, wildcard of wildcard, a diamond) x every tuple of 7 ground argument types (incl. star projections and a type flagged can_infer_type_args): TypeConstructor.new and '
                      'substitute_type compared with a reference substitution on normalized terms (type arguments, supertypes '
                      'transitively, no remaining type variable, empty map gives an equal type) and pickle snapshots of the '
                      'class table and arguments before/after. Non-trivial: instantiation succeeded; distinct by (table, args)'
